@@ -1275,7 +1275,9 @@ fn adts_to_raw(frame: &[u8]) -> Result<&[u8], AdtsValidationError> {
         | ((frame[4] as usize) << 3)
         | (((frame[5] & 0xE0) as usize) >> 5);
 
-    if aac_frame_length < header_len {
+    // A frame whose declared length is only the header carries no AAC payload; storing it
+    // would create a zero-size sample.
+    if aac_frame_length <= header_len {
         return Err(AdtsValidationError {
             kind: AdtsErrorKind::InvalidFrameLength,
             severity: ErrorSeverity::Error,
